@@ -18,6 +18,11 @@ POOL = ['password', 'Pass word', ' lead', 'trail ', '  two  ', 'пароль', '
 JUNK = [('blank', b''), ('tab', b'ab\tcd'), ('nel', 'ab\u0085cd'), ('ls', 'ab\u2028cd'), ('ps', 'ab\u2029cd'),
         ('undecodable', {'utf-8': b'ab\xff\xfecd', 'cp1251': b'ab\x98cd'}), ('broken_hex', b'$HEX[4g]'), ('odd_hex', b'$HEX[414]')] + \
        [('c0_%02x' % c, b'ab' + bytes([c]) + b'cd') for c in range(0, 0x20) if c not in (0x0a, 0x0d, 0x09)]
+# the same characters as the first / the last character of the line and as the whole line: a validity test phrased as "does this text
+# split into more than one line" (or a reader that drops a trailing separator) treats these differently from an inner occurrence
+_SINGLE = [('tab', '\t'), ('nel', '\u0085'), ('ls', '\u2028'), ('ps', '\u2029')] + [('c0_%02x' % c, chr(c)) for c in range(0, 0x20) if c not in (0x0a, 0x0d, 0x09)]
+JUNK += [('%s_first' % n, ch + 'abcd') for n, ch in _SINGLE] + [('%s_last' % n, 'abcd' + ch) for n, ch in _SINGLE] + [('%s_alone' % n, ch) for n, ch in _SINGLE] + \
+        [('%s_twice' % n, 'ab' + ch + ch) for n, ch in _SINGLE[:4]]
 # a lone CR inside a line is deliberately not in the junk alphabet: treating it as an (old Mac) line end is legitimate
 
 
